@@ -4,8 +4,10 @@ package main
 
 import (
 	"fmt"
+	"google.golang.org/protobuf/proto"
 	"math/rand/v2"
 	"os"
+	"strings"
 
 	"github.com/containerd/nri/pkg/api"
 	rspec "github.com/opencontainers/runtime-spec/specs-go"
@@ -226,7 +228,11 @@ func (g *mgen) adjSet(a *api.ContainerAdjustment, kind, key string, boundary boo
 		}
 		a.Annotations[key] = fmt.Sprintf("av%d", g.next())
 	case "env":
-		a.Env = append(a.Env, &api.KeyValue{Key: key, Value: fmt.Sprintf("ev%d", g.next())})
+		v := fmt.Sprintf("ev%d", g.next())
+		if boundary && g.chance(0.1) {
+			v = "" // a variable set to the empty string
+		}
+		a.Env = append(a.Env, &api.KeyValue{Key: key, Value: v})
 	case "mount":
 		a.Mounts = append(a.Mounts, g.mount(key))
 	case "device":
@@ -664,6 +670,11 @@ type sysSpec struct {
 	Innocent bool   // plugins in between do unrelated things
 }
 
+// origValueKinds: kinds for which "the earlier plugin sets exactly the value the runtime submitted" is
+// built by applying that plugin's adjustment to the original spec with the project's generator.
+var origValueKinds = map[string]bool{"cgroupspath": true, "oomscoreadj": true, "annotation": true, "env": true, "args": true,
+	"mem.limit": true, "mem.swap": true, "cpu.shares": true, "cpu.quota": true, "cpu.cpus": true, "pids": true, "unified": true, "hugepage": true}
+
 // systematicSpecs enumerates kind × path × distance × pattern.
 func systematicSpecs() []sysSpec {
 	var out []sysSpec
@@ -685,15 +696,31 @@ func systematicSpecs() []sysSpec {
 				if p == "create-adjust" && k.removable && k.keyed {
 					pats = append(pats, "decoy-removal-then-set", "decoy-after-removal")
 				}
+				pats = append(pats, "same-value")
+				if p != "create-adjust" && d.n == 2 {
+					pats = append(pats, "self-repeat")
+				}
+				if d.n == 2 {
+					pats = append(pats, "single")
+				}
+				if p == "create-adjust" && origValueKinds[k.name] {
+					pats = append(pats, "orig-value-then-other")
+				}
+				if k.name == "args" {
+					pats = append(pats, "bare-args-removal")
+				}
 				if p == "create-adjust" && k.removable && k.keyed && d.n >= 3 {
 					pats = append(pats, "remove-many-then-set")
 				}
 				if p != "create-adjust" && d.n >= 3 && d.b-d.a >= 2 {
-					pats = append(pats, "collision-after-ignored-drop", "ignored-partial-drop")
+					pats = append(pats, "collision-after-ignored-drop", "ignored-partial-drop", "ignored-partial-drop-maps")
 				}
 				for _, pat := range pats {
 					for _, oh := range []bool{false, true} {
 						if oh && !(p == "create-adjust" || p == "update-own") {
+							continue
+						}
+						if pat == "orig-value-then-other" && !oh {
 							continue
 						}
 						out = append(out, sysSpec{Kind: k.name, Path: p, N: d.n, A: d.a, B: d.b, Pattern: pat, OrigHas: oh, Innocent: true})
@@ -780,6 +807,43 @@ func (g *mgen) genSystematic(id string, s sysSpec) *MCase {
 	case "remove-then-set":
 		put(s.A, false, true)
 		put(s.B, true, true)
+	case "same-value":
+		// B sets the very same value A set: still two plugins setting the same item
+		put(s.A, false, true)
+		ra := c.Resp[s.A]
+		if ra.Adjust != nil {
+			c.Resp[s.B].Adjust = proto.Clone(ra.Adjust).(*api.ContainerAdjustment)
+		}
+		c.Resp[s.B].Updates = cloneUpdates(ra.Updates)
+	case "single":
+		put(s.A, false, true)
+	case "self-repeat":
+		// ONE plugin names the item twice, in two updates of the same target, the second flagged
+		// ignore-failure and carrying another field too (whether that is refused is left open)
+		put(s.A, false, true)
+		put(s.A, false, true)
+		if ups := c.Resp[s.A].Updates; len(ups) == 2 {
+			ups[1].IgnoreFailure = true
+			extra := "cpu.shares"
+			if s.Kind == extra {
+				extra = "mem.limit"
+			}
+			g.setResField(ensureRes(&ups[1].Linux.Resources), extra, "", false)
+		}
+	case "orig-value-then-other":
+		// A sets exactly the value the runtime submitted (the original is rebuilt from A's adjustment), B another
+		put(s.A, false, true)
+		put(s.B, false, true)
+		if sp, err := applyAdjust(c.Spec, c.Resp[s.A].Adjust); err == nil {
+			c.Spec = sp
+			c.Ctr = ctrFromSpec(id, c.Pod.Id, c.Spec)
+		} else {
+			c.Tags[0] += "|orig-not-rebuilt"
+		}
+	case "bare-args-removal":
+		// A sets the command line, B sends only the removal marker: a removal, never a conflict
+		put(s.A, false, true)
+		c.Resp[s.B].Adjust = &api.ContainerAdjustment{Args: []string{""}}
 	case "decoy-removal-then-set":
 		// B removes the item named "-key" (wire "--key"), a different item, and sets key: still a conflict
 		put(s.A, false, true)
@@ -824,6 +888,39 @@ func (g *mgen) genSystematic(id string, s sysSpec) *MCase {
 			g.adjSet(rb.Adjust, s.Kind, keys[1], false)
 			g.adjSet(rb.Adjust, s.Kind, keys[2], false)
 		}
+	case "ignored-partial-drop-maps":
+		// like ignored-partial-drop, with the map- and list-typed fields: the target already holds a unified
+		// key and a hugepage limit from the first (successful) update of the plugin after A; its second,
+		// ignore-failure update adds another unified key and another page size before it collides with A's
+		// claim on X and is dropped whole: nobody may see any part of it
+		put(s.A, false, true)
+		mid := &c.Resp[s.A+1]
+		pick2 := func(keys []string, not string) (string, string) {
+			var o []string
+			for _, k := range keys {
+				if k != not {
+					o = append(o, k)
+				}
+			}
+			return o[0], o[1]
+		}
+		notU, notH := "", ""
+		if s.Kind == "unified" {
+			notU = key
+		}
+		if s.Kind == "hugepage" {
+			notH = key
+		}
+		ua, ub := pick2(kindByName("unified").keys, notU)
+		ha, hb := pick2(kindByName("hugepage").keys, notH)
+		u1 := &api.ContainerUpdate{ContainerId: target, Linux: &api.LinuxContainerUpdate{}}
+		g.setResField(ensureRes(&u1.Linux.Resources), "unified", ua, false)
+		g.setResField(ensureRes(&u1.Linux.Resources), "hugepage", ha, false)
+		u2 := &api.ContainerUpdate{ContainerId: target, Linux: &api.LinuxContainerUpdate{}, IgnoreFailure: true}
+		g.setResField(ensureRes(&u2.Linux.Resources), "unified", ub, false)
+		g.setResField(ensureRes(&u2.Linux.Resources), "hugepage", hb, false)
+		g.setResField(ensureRes(&u2.Linux.Resources), s.Kind, key, false)
+		mid.Updates = append(mid.Updates, u1, u2)
 	case "collision-after-ignored-drop", "ignored-partial-drop":
 		// A sets X on the target. The plugin after it sends two updates for the target: the first sets Y
 		// (succeeds), the second, flagged ignore-failure, sets Z (a field handled before X) and X: it
@@ -862,7 +959,7 @@ func (g *mgen) genSystematic(id string, s sysSpec) *MCase {
 	// innocents: unrelated annotation / resource fields from their own partitions
 	for p := 0; p < s.N; p++ {
 		if p == s.A || p == s.B || ((s.Pattern == "lone-removal-between" || s.Pattern == "remove-many-then-set" ||
-			s.Pattern == "collision-after-ignored-drop" || s.Pattern == "ignored-partial-drop") && p == s.A+1) {
+			s.Pattern == "collision-after-ignored-drop" || s.Pattern == "ignored-partial-drop" || s.Pattern == "ignored-partial-drop-maps") && p == s.A+1) {
 			continue
 		}
 		r := &c.Resp[p]
@@ -1042,3 +1139,48 @@ func clearResField(r *api.LinuxResources, kind, key string) {
 }
 
 var _ = os.Getpid
+
+// genPair: plugin 0 sets item kind k1 and plugin 1 sets the different kind k2 for the same container,
+// on the given path: different items never conflict, whichever two they are.
+func (g *mgen) genPair(id, k1, k2, path string) *MCase {
+	kind := "create"
+	switch path {
+	case "update-own", "update-3p":
+		kind = "update"
+	case "stop-3p", "stop-own":
+		kind = "stop"
+	}
+	c := &MCase{ID: id, Kind: kind, Pod: &api.PodSandbox{Id: "pod-" + id, Name: "pod-" + id, Namespace: "ns"}}
+	c.Others = []string{id + ".o1", id + ".o2", id + ".o3"}
+	c.Tags = []string{fmt.Sprintf("pair|%s|%s|%s", k1, k2, path)}
+	if kind == "create" {
+		c.Spec = g.genSpec()
+		c.Ctr = ctrFromSpec(id, c.Pod.Id, c.Spec)
+	} else {
+		c.Ctr = &api.Container{Id: id, PodSandboxId: c.Pod.Id, Name: "ctr-" + id, State: api.ContainerState_CONTAINER_RUNNING}
+		if kind == "update" {
+			c.Res = g.genReqResources()
+		}
+	}
+	target := id
+	if strings.HasSuffix(path, "-3p") {
+		target = c.Others[0]
+	}
+	c.Resp = make([]PResp, 2)
+	for p, kn := range []string{k1, k2} {
+		kd := kindByName(kn)
+		key := ""
+		if kd.keyed {
+			key = kd.keys[p%len(kd.keys)]
+		}
+		if path == "create-adjust" {
+			c.Resp[p].Adjust = &api.ContainerAdjustment{}
+			g.adjSet(c.Resp[p].Adjust, kn, key, false)
+			continue
+		}
+		u := &api.ContainerUpdate{ContainerId: target, Linux: &api.LinuxContainerUpdate{}}
+		g.setResField(ensureRes(&u.Linux.Resources), kn, key, false)
+		c.Resp[p].Updates = append(c.Resp[p].Updates, u)
+	}
+	return c
+}
